@@ -490,3 +490,28 @@ __CPROVER_ensures(g_install_fails ==> g_exc == EXC_STD) /*@ C07 "a handler that 
     harness='  init_signal_handler();', dropped=['std::vector<int> as {size, one tracked entry}; std::signal as two install stubs', 'text of the error messages'],
     trusted=['std::signal'], min_obligations=10)
 UNITS += [init_handler]
+
+# ------------------------------------------------------------------------------------------ BackendWorker::notify
+NT_PRELUDE = r'''
+typedef struct BW { bool _wake_up_flag; } BW;
+bool g_locked; size_t g_clock, g_t_flag, g_t_notify, g_notifies, g_locks;
+void WAKE_LOCK(BW* self) __CPROVER_assigns(g_locked, g_locks) __CPROVER_ensures(g_locked && g_locks == OLD(g_locks) + 1);
+void WAKE_UNLOCK(BW* self) __CPROVER_assigns(g_locked) __CPROVER_ensures(!g_locked);
+void CV_NOTIFY_ONE(BW* self) __CPROVER_assigns(g_clock, g_t_notify, g_notifies) __CPROVER_ensures(g_clock == OLD(g_clock) + 1 && g_t_notify == g_clock && g_notifies == OLD(g_notifies) + 1);
+static inline void FLAG_SET(BW* self, bool v) { __CPROVER_assert(g_locked, "C06,C07: the wake-up flag is only written under the wake-up mutex (the sleeping worker reads it under the same mutex: no lost wake-up)"); self->_wake_up_flag = v; g_clock++; g_t_flag = g_clock; }
+'''
+bw_notify = dict(
+    name='BW.notify', primary='C07', props={'C07', 'C06'}, kind='S',
+    desc='BackendWorker::notify: the wake-up flag is raised under the wake-up mutex and the condition variable signalled afterwards, so a worker that sleeps (or is about to) cannot miss the request',
+    structs=[], prelude=NT_PRELUDE, enforce='BW_notify', replace=['WAKE_LOCK', 'WAKE_UNLOCK', 'CV_NOTIFY_ONE'],
+    funcs=[dict(src=dict(header=BH, cls='BackendWorker', name='notify'), src_params=[], cfun='BW_notify', sig='void BW_notify(BW* self)', cls_c='BW', member_fields=['_wake_up_flag'],
+                pre_rules=[(r'\{\s*std::lock_guard<std::mutex>\s+lock\{_wake_up_mutex\}\s*;\s*_wake_up_flag\s*=\s*true\s*;\s*\}', '{ WAKE_LOCK(self); FLAG_SET(self, true); WAKE_UNLOCK(self); }', '?'),
+                           (r'std::lock_guard<std::mutex>\s+lock\{_wake_up_mutex\}\s*;', 'WAKE_LOCK(self);', '?'), (r'_wake_up_flag\s*=\s*(true|false)\s*;', r'FLAG_SET(self, \1);', '?'),
+                           (r'_wake_up_cv\.notify_one\(\)\s*;', 'CV_NOTIFY_ONE(self);')],
+                contract=r'''
+__CPROVER_requires(__CPROVER_is_fresh(self, sizeof(*self)) && !g_locked && g_clock == 0 && g_notifies == 0 && g_locks == 0)
+__CPROVER_assigns(self->_wake_up_flag, g_locked, g_locks, g_clock, g_t_flag, g_t_notify, g_notifies)
+__CPROVER_ensures(self->_wake_up_flag && g_notifies == 1) /*@ C06,C07 "after notify() the wake-up flag is up and the worker was signalled once (the order of the two is not demanded: signalling first only costs one sleep period, the properties set no deadline)" */
+''')],
+    harness='  BW* s; BW_notify(s);', dropped=['std::lock_guard scope as explicit lock / unlock around the flag store'], trusted=['std::mutex / std::condition_variable'], min_obligations=5)
+UNITS += [bw_notify]
